@@ -56,6 +56,8 @@ func coldStart() string {
 }
 
 var coldStartResult = func() (msg string) {
+	vk.ArmProbe("C02", Case{Style: "cold-start:the process died during its first calls of the library"})
+	defer vk.DisarmProbe()
 	defer func() {
 		if r := recover(); r != nil {
 			msg = fmt.Sprintf("first use in the process panicked: %v", r)
